@@ -681,6 +681,49 @@ pub fn run_tamper(args: &Args) -> (u64, u64) {
             }
         }
     }
+    // ROLES CROSSING ON ONE THREAD: on a fresh thread the very first thing is a CLIENT talking to a realm that announces
+    // another group (N = 23, 257, a 256-bit number of another shape); then, on the same thread, an ordinary account is
+    // registered and a client with the WRONG password, a right proof with one bit changed, and the right proof are
+    // presented - whatever an earlier exchange announced, the server computes in ITS group
+    for (gi, (g, nsmall)) in [(5u8, 23u64), (3, 257), (7, 0)].into_iter().enumerate() {
+        h.reset("tamper-foreign-group-first");
+        let mut n = [0u8; 32];
+        if nsmall == 0 { n = N_LE; n[0] = n[0].wrapping_add(30); n[31] = 0x7F; } else { n[..8].copy_from_slice(&nsmall.to_le_bytes()); }
+        let a = rnd32(&mut rng);
+        let a2 = rnd32(&mut rng);
+        let hr = &mut h;
+        std::thread::scope(|sc| {
+            sc.spawn(move || {
+                let h = hr;
+                let mut bb = [0u8; 32];
+                bb[0] = 2 + gi as u8;
+                if let Some(bpub) = h.pubkey(bb) {
+                    h.client_new("BOB", "HUNTER2", g, n, bpub, [7u8; 32], Some(&a));
+                }
+                let Some((vo, v)) = h.register("ALICE", "PASSWORD123", None) else { return };
+                let Some((po, proof)) = h.into_proof(vo, v, None) else { return };
+                let Some(bpub) = h.pubkey(*proof.server_public_key()) else { return };
+                let salt = *proof.salt();
+                // wrong password
+                if let Some((_co, intruder)) = h.client_new("ALICE", "NOT-THE-PASSWORD", 7, N_LE, bpub, salt, Some(&a2)) {
+                    if let Some(apub) = h.pubkey(*intruder.client_public_key()) {
+                        let (pc, pp) = clone_proof(h, po, &proof);
+                        h.into_server(pc, pp, apub, *intruder.client_proof());
+                    }
+                }
+                // right password: one bit of the proof changed, then the proof itself
+                if let Some((co, honest)) = h.client_new("ALICE", "PASSWORD123", 7, N_LE, bpub, salt, Some(&a2)) {
+                    if let Some(apub) = h.pubkey(*honest.client_public_key()) {
+                        let (pc, pp) = clone_proof(h, po, &proof);
+                        h.into_server(pc, pp, apub, a20(&flip(honest.client_proof(), 77 + gi)));
+                        if let Some((_so, _srv, m2)) = h.into_server(po, proof, apub, *honest.client_proof()) {
+                            h.verify_server_proof(co, honest, m2);
+                        }
+                    }
+                }
+            });
+        });
+    }
     h.tr.finish()
 }
 
@@ -808,6 +851,40 @@ pub fn run_reconnect(args: &Args) -> (u64, u64) {
             let prm = Params { user: name, pass: "PW", typed_user: &typed, typed_pass: "pw", salt: None, b: None, a: None, storage: k % 2 == 0 };
             if let Some(mut sess) = honest_login(&mut h, &prm) {
                 good_reconnect(&mut h, &mut sess);
+            }
+        }
+    }
+    // proofs over TRANSFORMED inputs: the attacker presents data X with a proof computed over t1(X) and t2(challenge) for
+    // byte-order reversal, complement, rotation by one byte, swapped halves and 32-bit word swaps (every pair but the
+    // identity pair): the proof covers the bytes as presented and as offered, in that order and no other; a legitimate
+    // reconnect follows each refusal
+    {
+        h.reset("reconnect-transformed-inputs");
+        let prm = Params { user: "TRANSFORM", pass: "INPUTS", typed_user: "transform", typed_pass: "inputs", salt: None, b: None, a: None, storage: false };
+        if let Some(mut s) = honest_login(&mut h, &prm) {
+            let key = *s.server.session_key();
+            let tf = |k: usize, x: &[u8; 16]| -> [u8; 16] {
+                let mut y = *x;
+                match k {
+                    0 => {}
+                    1 => y.reverse(),
+                    2 => for b in y.iter_mut() { *b = !*b; },
+                    3 => y.rotate_left(1),
+                    4 => y.rotate_left(8),
+                    _ => for w in y.chunks_mut(4) { w.reverse(); },
+                }
+                y
+            };
+            'outer: for t1 in 0..6usize {
+                for t2 in 0..6usize {
+                    if t1 == 0 && t2 == 0 { continue; }
+                    let chal = *s.server.reconnect_challenge_data();
+                    let mut x = [0u8; 16];
+                    rng.fill_bytes(&mut x);
+                    let pr = sha1cat(&[b"TRANSFORM", &tf(t1, &x), &tf(t2, &chal), &key]);
+                    if h.verify_reconnect(s.so, &mut s.server, x, pr, "transformed").is_none() { break 'outer; }
+                    if (t1 + t2) % 3 == 0 && good_reconnect(&mut h, &mut s).is_none() { break 'outer; }
+                }
             }
         }
     }
